@@ -259,8 +259,8 @@ Lemma construct2_ok input d0 uncomp lc lp pb dict preset :
   rdec_init input = Ok d0 -> 0 <= uncomp ->
   exists W, lzma1_construct2 input uncomp lc lp pb dict preset
             = Ok (mkLzma1 (coder_new lc lp pb) (lzwin_new W preset) d0 PLeaf false uncomp) /\
-    4096 <= W <= 4294967280 /\ W mod 16 = 0 /\
-    (dict <= W \/ (uncomp <= U64_HALF /\ uncomp <= W)).
+    4096 <= W < dict + 16 /\ W mod 16 = 0 /\
+    (dict <= W \/ (uncomp <= U64_HALF /\ Z.max uncomp 4096 <= W)).
 Proof.
   intros Hlc Hlp Hpb Hdict Hinit Hu. unfold lzma1_construct2.
   destruct (Z.ltb_spec 8 lc); [lia|]. destruct (Z.ltb_spec 4 lp); [lia|]. destruct (Z.ltb_spec 4 pb); [lia|].
@@ -289,6 +289,53 @@ Proof.
 Qed.
 
 (* ---------------------------------------------------------------------------------------------
+   the window LZDecoder::new builds from a preset dictionary *)
+Lemma lastn_length {A} n (l : list A) : (n <= length l)%nat -> length (lastn n l) = n.
+Proof. intros H. unfold lastn. rewrite skipn_length. lia. Qed.
+
+Lemma lzwin_new_preset_rel W preset : 0 < W -> W mod 16 = 0 ->
+  Rel (lzwin_new W (Some preset)) (rev (lastn (Z.to_nat (Z.min (zlen preset) W)) preset)).
+Proof.
+  intros HW H16. unfold lzwin_new. set (n := Z.min (zlen preset) W). set (q := lastn (Z.to_nat n) preset).
+  pose proof (zlen_nonneg preset) as Hp0.
+  assert (Hq : zlen q = n) by (unfold zlen, q; rewrite lastn_length; unfold n, zlen in *; lia).
+  assert (Hh : zlen (rev q) = n) by (rewrite zlen_rev; exact Hq).
+  constructor; cbn [w_buf w_size w_start w_pos w_full w_limit w_pending_len]; rewrite ?Hh.
+  - split; assumption.
+  - unfold n. lia.
+  - unfold n. lia.
+  - lia.
+  - reflexivity.
+  - intros d Hd. unfold widx, bget; cbn [w_pos w_size w_buf].
+    destruct (Z.leb_spec n d); [lia|].
+    replace (n - d - 1) with (0 + (n - 1 - d)) by lia.
+    rewrite aget_aset_list_in by lia. rewrite hnth_rev by lia. rewrite Hq. reflexivity.
+  - intros Hz. assert (q = []) by (destruct q; [reflexivity | rewrite zlen_cons in Hq; pose proof (zlen_nonneg q); lia]).
+    unfold bget; cbn [w_buf]. rewrite H. cbn [aset_list]. unfold aget. rewrite pget_leaf. reflexivity.
+  - lia.
+Qed.
+
+Definition preset_list (popt : option (list Z)) : list Z := match popt with Some p => p | None => [] end.
+
+Lemma preset_kept_length dict preset : 0 <= dict -> zlen (preset_kept dict preset) = Z.min (zlen preset) dict.
+Proof.
+  intros Hd. unfold preset_kept, zlen. rewrite lastn_length by lia. lia.
+Qed.
+
+(* the reader's initial window represents the part of the preset the encoder kept *)
+Lemma lzwin_new_start W dict popt : 0 < W -> W mod 16 = 0 ->
+  Z.min (zlen (preset_list popt)) W = Z.min (zlen (preset_list popt)) dict ->
+  let w0 := lzwin_new W popt in
+  Rel w0 (rev (preset_kept dict (preset_list popt))) /\ w_start w0 = w_pos w0 /\ w_size w0 = W /\
+  w_pending_len w0 = 0 /\ w_pending_dist w0 = 0.
+Proof.
+  intros HW H16 Hmin. destruct popt as [preset|]; cbn [preset_list] in *.
+  - split; [|repeat split; reflexivity].
+    unfold preset_kept. rewrite <- Hmin. apply lzwin_new_preset_rel; assumption.
+  - split; [|repeat split; reflexivity]. apply lzwin_new_rel; assumption.
+Qed.
+
+(* ---------------------------------------------------------------------------------------------
    from the constructed reader to the end of the stream *)
 Lemma reader_roundtrip lc lp pb dict preset data syms (marker : bool) E1 c1 h1 E2 cE hE W w0 tail :
   0 <= lc <= 8 -> 0 <= lp <= 4 -> 0 <= pb <= 4 -> 4096 <= dict <= 2147483648 ->
@@ -300,17 +347,17 @@ Lemma reader_roundtrip lc lp pb dict preset data syms (marker : bool) E1 c1 h1 E
   events_bits (E1 ++ E2) <= RC_MAX_BITS ->
   let p := preset_kept dict preset in
   (dict <= W \/ zlen p + zlen data <= W) -> W <= 4294967296 ->
-  Rel w0 (rev p) -> w_start w0 = w_pos w0 -> w_pos w0 < w_size w0 -> w_size w0 = W ->
+  Rel w0 (rev p) -> w_start w0 = w_pos w0 -> w_size w0 = W ->
   w_pending_len w0 = 0 -> w_pending_dist w0 = 0 ->
   let body := renc_bytes (renc_finish (fst (renc_events renc_init PLeaf (E1 ++ E2)))) in
   let uncomp := if marker then U64_MAX else zlen data in
-  exists d0, rdec_init (body ++ tail) = Ok d0 /\
+  exists d0, rdec_init (body ++ tail) = Ok d0 /\ zlen data <= U64_HALF /\
     forall sizes fuel, Forall (fun z => 0 < z) sizes -> zlen data + 2 <= Z.of_nat fuel ->
     exists s_end,
       lzma1_read_all fuel (mkLzma1 (coder_new lc lp pb) w0 d0 PLeaf false uncomp) sizes sizes [] = Ok (data, s_end) /\
       lzma1_unconsumed s_end = tail.
 Proof.
-  intros Hlc Hlp Hpb Hdict Hbp Hbd Hne Hsyms Hall Hend Hfull Hbits p HW HW32 R0 Hst0 Hpos0 Hsz0 Hpl0 Hpd0 body uncomp.
+  intros Hlc Hlp Hpb Hdict Hbp Hbd Hne Hsyms Hall Hend Hfull Hbits p HW HW32 R0 Hst0 Hsz0 Hpl0 Hpd0 body uncomp.
   assert (Hok : forallb RangeEncProofs.ev_ok (E1 ++ E2) = true).
   { rewrite forallb_ev_ok_same. eapply enc_syms_events_ok; [|exact Hfull]. cbn [ehist_new h_dict]. lia. }
   destruct (rc_sim_init (E1 ++ E2) PLeaf tail probs_ok_empty Hok Hbits) as (d0 & Hinit & Hsim).
@@ -321,19 +368,82 @@ Proof.
   { pose proof (enc_syms_adv _ _ _ _ _ _ Hsyms) as Hadv. rewrite Hpos1 in Hadv. cbn [ehist_new h_pos] in Hadv.
     fold p in Hadv. rewrite events_bits_app in Hbits. pose proof (events_bits_nonneg E2).
     unfold RC_MAX_BITS in Hbits. unfold U64_HALF. lia. }
+  split; [exact Hsmall|].
   intros sizes fuel Hsizes Hfuel.
   set (s0 := mkLzma1 (coder_new lc lp pb) w0 d0 PLeaf false uncomp).
-  assert (HI : Inv (E1 ++ E2) tail W data (rev p) marker 0 s0).
+  assert (HI : InvG (E1 ++ E2) tail W data (rev p) marker false 0 s0).
   { split; [lia|]. exists (rev p), [], (E1 ++ E2), sN, E2.
     unfold s0; cbn [l_coder l_win l_rc l_probs l_end_reached l_remaining].
-    split; [reflexivity|]. split; [exact Hsim|]. split; [exact R0|]. split; [exact Hst0|]. split; [exact Hpos0|].
+    split; [reflexivity|]. split; [exact Hsim|]. split; [exact R0|]. split; [exact Hst0|].
+    split; [intros; discriminate|].
     split; [exact Hsz0|]. split; [apply coder_new_ok; assumption|]. split; [intros; lia|].
     split; [rewrite Nat.sub_0_r, Hsz0, Hpl0, Hpd0; exact Hrun|]. split; [exact Hfin|]. split; [reflexivity|].
     unfold uncomp. destruct marker; [reflexivity|]. rewrite Nat.sub_0_r. reflexivity. }
-  destruct (read_all_steps (E1 ++ E2) tail W data (rev p) marker Hsmall fuel 0 s0 sizes sizes [] HI Hsizes Hsizes)
+  destruct (read_all_steps (E1 ++ E2) tail W data (rev p) marker Hsmall fuel false 0 s0 sizes sizes [] HI Hsizes Hsizes)
     as (s_end & Hra & (_ & Hin)).
   { unfold zlen in Hfuel. lia. }
   exists s_end. rewrite Hra. cbn [rev app]. rewrite Nat.sub_0_r, seg_all. split; [reflexivity | exact Hin].
+Qed.
+
+(* ---------------------------------------------------------------------------------------------
+   the general form: optional preset dictionary, the stream after the optional header *)
+Definition preset_hyps (dict : Z) (preset data : list Z) (marker : bool) : Prop :=
+  (* both sides keep the same part of the preset (the reader rounds the dictionary size up to a
+     multiple of 16, the encoder does not) *)
+  (zlen preset <= dict \/ dict mod 16 = 0) /\
+  (* a declared size below the dictionary size shrinks the reader's window to that size: what
+     matches may reach (preset and data) must still fit *)
+  (marker = true \/ dict <= zlen data \/ zlen preset + zlen data <= Z.max (zlen data) 4096).
+
+Lemma preset_hyps_none dict data marker : 0 <= dict -> preset_hyps dict [] data marker.
+Proof.
+  intros Hd. split; [left; change (zlen (@nil Z)) with 0; lia|]. right. right. change (zlen (@nil Z)) with 0. lia.
+Qed.
+
+Theorem lzma1_roundtrip_body : forall lc lp pb dict popt data syms use_header use_end_marker expected stream tail sizes,
+  0 <= lc <= 8 -> 0 <= lp <= 4 -> 0 <= pb <= 4 -> 4096 <= dict <= 2147483648 ->
+  let preset := preset_list popt in
+  bytes_ok preset = true -> bytes_ok data = true -> no_end syms ->
+  preset_hyps dict preset data use_end_marker ->
+  lzma1_write lc lp pb dict preset data syms use_header use_end_marker expected = Ok stream ->
+  (forall E c' h', enc_syms (coder_new lc lp pb) (ehist_new dict preset data) (syms ++ end_syms use_end_marker) = Ok (E, c', h') ->
+     events_bits E <= RC_MAX_BITS) ->
+  Forall (fun z => 0 < z) sizes ->
+  let uncomp := if use_end_marker then U64_MAX else zlen data in
+  exists body s0,
+    stream = (if use_header then lzma1_header lc lp pb dict expected else []) ++ body /\
+    lzma1_construct2 (body ++ tail) uncomp lc lp pb dict popt = Ok s0 /\ zlen data <= U64_HALF /\
+    forall fuel, zlen data + 2 <= Z.of_nat fuel ->
+    exists s_end, lzma1_read_all fuel s0 sizes sizes [] = Ok (data, s_end) /\ lzma1_unconsumed s_end = tail.
+Proof.
+  intros lc lp pb dict popt data syms use_header marker expected stream tail sizes Hlc Hlp Hpb Hdict preset
+         Hbp Hbd Hne (HP1 & HP2) Hw Hbits Hsizes uncomp.
+  destruct (lzma1_write_inv _ _ _ _ _ _ _ _ _ _ _ Hw) as (E1 & c1 & h1 & E2 & cE & hE & Hsyms & Hall & Hend & Hfull & ->).
+  specialize (Hbits _ _ _ Hfull).
+  assert (Hu : 0 <= uncomp) by (unfold uncomp, U64_MAX; destruct marker; [lia | apply zlen_nonneg]).
+  assert (Hok : forallb RangeEncProofs.ev_ok (E1 ++ E2) = true).
+  { rewrite forallb_ev_ok_same. eapply enc_syms_events_ok; [|exact Hfull]. cbn [ehist_new h_dict]. lia. }
+  destruct (rc_sim_init (E1 ++ E2) PLeaf tail probs_ok_empty Hok Hbits) as (d0 & Hinit & _).
+  destruct (construct2_ok _ d0 uncomp lc lp pb dict popt Hlc Hlp Hpb Hdict Hinit Hu) as (W & Hc2 & HWr & HW16 & HWd).
+  pose proof (zlen_nonneg preset) as Hp0. pose proof (zlen_nonneg data) as Hd0.
+  assert (HuM : marker = true -> ~ uncomp <= U64_HALF) by (intros ->; unfold uncomp, U64_MAX, U64_HALF; lia).
+  assert (HuD : marker = false -> uncomp = zlen data) by (intros ->; reflexivity).
+  assert (Hmin : Z.min (zlen preset) W = Z.min (zlen preset) dict).
+  { destruct HWd as [HWd|(Hh & HWd)].
+    - destruct HP1 as [HP1|HP1]; lia.
+    - destruct marker; [exfalso; apply HuM; [reflexivity | exact Hh]|]. rewrite (HuD eq_refl) in HWd.
+      destruct HP2 as [HP2|[HP2|HP2]]; [discriminate | destruct HP1 as [HP1|HP1]; lia | lia]. }
+  assert (HWfit : dict <= W \/ zlen (preset_kept dict preset) + zlen data <= W).
+  { rewrite preset_kept_length by lia. destruct HWd as [HWd|(Hh & HWd)]; [left; exact HWd|].
+    destruct marker; [exfalso; apply HuM; [reflexivity | exact Hh]|]. rewrite (HuD eq_refl) in HWd.
+    destruct HP2 as [HP2|[HP2|HP2]]; [discriminate | left; lia | right; lia]. }
+  destruct (lzwin_new_start W dict popt ltac:(lia) HW16 Hmin) as (R0 & Hst0 & Hsz0 & Hpl0 & Hpd0).
+  destruct (reader_roundtrip lc lp pb dict preset data syms marker E1 c1 h1 E2 cE hE W (lzwin_new W popt) tail
+              Hlc Hlp Hpb Hdict Hbp Hbd Hne Hsyms Hall Hend Hfull Hbits HWfit ltac:(lia) R0 Hst0 Hsz0 Hpl0 Hpd0)
+    as (d0' & Hinit' & Hsmall & Hread).
+  rewrite Hinit in Hinit'. apply Ok_inj in Hinit'. subst d0'.
+  eexists. eexists. split; [reflexivity|]. split; [exact Hc2|]. split; [exact Hsmall|].
+  intros fuel Hfuel. exact (Hread sizes fuel Hsizes Hfuel).
 Qed.
 
 (* ---------------------------------------------------------------------------------------------
@@ -355,30 +465,116 @@ Theorem lzma1_roundtrip_raw : forall lc lp pb dict data syms use_end_marker stre
     exists s_end, lzma1_read_all fuel s0 sizes sizes [] = Ok (data, s_end) /\ lzma1_unconsumed s_end = tail.
 Proof.
   intros lc lp pb dict data syms marker stream tail sizes Hlc Hlp Hpb Hdict Hbd Hne Hw Hbits Hsizes uncomp.
-  destruct (lzma1_write_inv _ _ _ _ _ _ _ _ _ _ _ Hw) as (E1 & c1 & h1 & E2 & cE & hE & Hsyms & Hall & Hend & Hfull & ->).
-  cbn [app].
-  specialize (Hbits _ _ _ Hfull).
-  assert (Hu : 0 <= uncomp) by (unfold uncomp, U64_MAX; destruct marker; [lia | apply zlen_nonneg]).
-  (* the window the reader will choose does not depend on the range decoder: get it first *)
-  assert (Hok : forallb RangeEncProofs.ev_ok (E1 ++ E2) = true).
-  { rewrite forallb_ev_ok_same. eapply enc_syms_events_ok; [|exact Hfull]. cbn [ehist_new h_dict]. lia. }
-  destruct (rc_sim_init (E1 ++ E2) PLeaf tail probs_ok_empty Hok Hbits) as (d0 & Hinit & _).
-  destruct (construct2_ok _ d0 uncomp lc lp pb dict None Hlc Hlp Hpb Hdict Hinit Hu) as (W & Hc2 & HWr & HW16 & HWd).
-  assert (Hp : preset_kept dict [] = []) by reflexivity.
-  destruct (reader_roundtrip lc lp pb dict [] data syms marker E1 c1 h1 E2 cE hE W (lzwin_new W None) tail
-              Hlc Hlp Hpb Hdict eq_refl Hbd Hne Hsyms Hall Hend Hfull Hbits) as (d0' & Hinit' & Hread).
-  { rewrite Hp. change (zlen (@nil Z)) with 0. destruct HWd as [HWd|(_ & HWd)]; [left; exact HWd|].
-    unfold uncomp in HWd. destruct marker; [unfold U64_MAX in HWd; lia | right; lia]. }
-  { lia. }
-  { rewrite Hp. apply lzwin_new_rel; lia. }
-  { reflexivity. }
-  { cbn [lzwin_new w_pos w_size]. lia. }
-  { reflexivity. }
-  { reflexivity. }
-  { reflexivity. }
-  rewrite Hinit in Hinit'. apply Ok_inj in Hinit'. subst d0'.
-  eexists. split; [exact Hc2|].
-  intros fuel Hfuel. exact (Hread sizes fuel Hsizes Hfuel).
+  destruct (lzma1_roundtrip_body lc lp pb dict None data syms false marker None stream tail sizes Hlc Hlp Hpb Hdict
+              eq_refl Hbd Hne (preset_hyps_none dict data marker ltac:(lia)) Hw Hbits Hsizes)
+    as (body & s0 & Hst & Hc2 & _ & Hread).
+  cbn [app] in Hst. subst body. exists s0. split; [exact Hc2 | exact Hread].
 Qed.
 
+(* the same with a preset dictionary *)
+Theorem lzma1_roundtrip_preset : forall lc lp pb dict preset data syms use_end_marker stream tail sizes,
+  0 <= lc <= 8 -> 0 <= lp <= 4 -> 0 <= pb <= 4 -> 4096 <= dict <= 2147483648 ->
+  bytes_ok preset = true -> bytes_ok data = true -> no_end syms ->
+  preset_hyps dict preset data use_end_marker ->
+  lzma1_write lc lp pb dict preset data syms false use_end_marker None = Ok stream ->
+  (forall E c' h', enc_syms (coder_new lc lp pb) (ehist_new dict preset data) (syms ++ end_syms use_end_marker) = Ok (E, c', h') ->
+     events_bits E <= RC_MAX_BITS) ->
+  Forall (fun z => 0 < z) sizes ->
+  let uncomp := if use_end_marker then U64_MAX else zlen data in
+  exists s0, lzma1_construct2 (stream ++ tail) uncomp lc lp pb dict (Some preset) = Ok s0 /\
+    forall fuel, zlen data + 2 <= Z.of_nat fuel ->
+    exists s_end, lzma1_read_all fuel s0 sizes sizes [] = Ok (data, s_end) /\ lzma1_unconsumed s_end = tail.
+Proof.
+  intros lc lp pb dict preset data syms marker stream tail sizes Hlc Hlp Hpb Hdict Hbp Hbd Hne HP Hw Hbits Hsizes uncomp.
+  destruct (lzma1_roundtrip_body lc lp pb dict (Some preset) data syms false marker None stream tail sizes Hlc Hlp Hpb Hdict
+              Hbp Hbd Hne HP Hw Hbits Hsizes)
+    as (body & s0 & Hst & Hc2 & _ & Hread).
+  cbn [app] in Hst. subst body. exists s0. split; [exact Hc2 | exact Hread].
+Qed.
+
+(* ---------------------------------------------------------------------------------------------
+   the 13-byte .lzma header *)
+Lemma props_byte_val lc lp pb : 0 <= lc <= 8 -> 0 <= lp <= 4 -> 0 <= pb <= 4 ->
+  props_byte lc lp pb = (pb * 5 + lp) * 9 + lc.
+Proof. intros. unfold props_byte, wrap8. rewrite Z.mod_small; lia. Qed.
+
+Lemma memory_usage_by_props_eq dict lc lp pb : 0 <= lc <= 8 -> 0 <= lp <= 4 -> 0 <= pb <= 4 -> dict <= DICT_SIZE_MAX ->
+  lzma1_memory_usage_by_props dict (props_byte lc lp pb) = lzma1_memory_usage dict lc lp.
+Proof.
+  intros Hlc Hlp Hpb Hd. unfold lzma1_memory_usage_by_props. rewrite props_byte_val by assumption.
+  destruct (Z.ltb_spec DICT_SIZE_MAX dict); [lia|]. destruct (Z.ltb_spec 224 ((pb * 5 + lp) * 9 + lc)); [lia|].
+  cbv zeta.
+  replace (((pb * 5 + lp) * 9 + lc) mod 45) with (lp * 9 + lc) by lia.
+  replace ((lp * 9 + lc) / 9) with lp by lia. replace (lp * 9 + lc - lp * 9) with lc by lia. reflexivity.
+Qed.
+
+Lemma construct1_eq input uncomp lc lp pb dict popt :
+  0 <= lc <= 8 -> 0 <= lp <= 4 -> 0 <= pb <= 4 -> dict <= DICT_SIZE_MAX ->
+  lzma1_construct1 input uncomp (props_byte lc lp pb) dict popt = lzma1_construct2 input uncomp lc lp pb dict popt.
+Proof.
+  intros Hlc Hlp Hpb Hd. unfold lzma1_construct1. rewrite props_byte_val by assumption.
+  destruct (Z.ltb_spec 224 ((pb * 5 + lp) * 9 + lc)); [lia|]. cbv zeta.
+  destruct (Z.ltb_spec DICT_SIZE_MAX dict); [lia|].
+  replace (((pb * 5 + lp) * 9 + lc) / 45) with pb by lia.
+  replace ((pb * 5 + lp) * 9 + lc - pb * 45) with (lp * 9 + lc) by lia.
+  replace ((lp * 9 + lc) / 9) with lp by lia. replace (lp * 9 + lc - lp * 9) with lc by lia. reflexivity.
+Qed.
+
+Lemma header_parse lc lp pb dict expected rest mem popt need :
+  0 <= lc <= 8 -> 0 <= lp <= 4 -> 0 <= pb <= 4 -> 0 <= dict <= 4294967280 ->
+  let u := match expected with Some n => n | None => 18446744073709551615 end in
+  0 <= u < 18446744073709551616 ->
+  lzma1_memory_usage dict lc lp = Ok need -> need <= mem ->
+  lzma1_new_mem_limit (lzma1_header lc lp pb dict expected ++ rest) mem popt
+  = lzma1_construct2 rest u lc lp pb dict popt.
+Proof.
+  intros Hlc Hlp Hpb Hdict u Hu Hmem Hneed.
+  pose proof (le_value_bytes 4 dict ltac:(change (256 ^ Z.of_nat 4) with 4294967296; lia)) as H4.
+  pose proof (le_value_bytes 8 u ltac:(change (256 ^ Z.of_nat 8) with 18446744073709551616; lia)) as H8.
+  unfold lzma1_new_mem_limit, lzma1_header. fold u. cbn [le_bytes app] in *.
+  rewrite H4, H8.
+  rewrite memory_usage_by_props_eq by (unfold DICT_SIZE_MAX; lia). rewrite Hmem. cbn [obind].
+  destruct (Z.ltb_spec mem need); [lia|].
+  apply construct1_eq; try assumption. unfold DICT_SIZE_MAX; lia.
+Qed.
+
+(* END-TO-END with the .lzma header (LZMAReader::new_mem_limit), optional preset dictionary *)
+Theorem lzma1_roundtrip_header : forall lc lp pb dict popt data syms use_end_marker stream tail sizes mem_limit_kb need,
+  0 <= lc <= 8 -> 0 <= lp <= 4 -> 0 <= pb <= 4 -> 4096 <= dict <= 2147483648 ->
+  let preset := preset_list popt in
+  bytes_ok preset = true -> bytes_ok data = true -> no_end syms ->
+  preset_hyps dict preset data use_end_marker ->
+  lzma1_write lc lp pb dict preset data syms true use_end_marker
+              (if use_end_marker then None else Some (zlen data)) = Ok stream ->
+  (forall E c' h', enc_syms (coder_new lc lp pb) (ehist_new dict preset data) (syms ++ end_syms use_end_marker) = Ok (E, c', h') ->
+     events_bits E <= RC_MAX_BITS) ->
+  Forall (fun z => 0 < z) sizes ->
+  lzma1_memory_usage dict lc lp = Ok need -> need <= mem_limit_kb ->
+  exists s0, lzma1_new_mem_limit (stream ++ tail) mem_limit_kb popt = Ok s0 /\
+    forall fuel, zlen data + 2 <= Z.of_nat fuel ->
+    exists s_end, lzma1_read_all fuel s0 sizes sizes [] = Ok (data, s_end) /\ lzma1_unconsumed s_end = tail.
+Proof.
+  intros lc lp pb dict popt data syms marker stream tail sizes mem need Hlc Hlp Hpb Hdict preset Hbp Hbd Hne HP Hw Hbits
+         Hsizes Hmem Hneed.
+  destruct (lzma1_roundtrip_body lc lp pb dict popt data syms true marker _ stream tail sizes Hlc Hlp Hpb Hdict
+              Hbp Hbd Hne HP Hw Hbits Hsizes)
+    as (body & s0 & Hst & Hc2 & Hsmall & Hread).
+  exists s0. split; [|exact Hread]. subst stream. rewrite <- app_assoc.
+  pose proof (zlen_nonneg data) as Hd0.
+  rewrite (header_parse lc lp pb dict _ (body ++ tail) mem popt need Hlc Hlp Hpb ltac:(lia)); try assumption.
+  - rewrite <- Hc2. destruct marker; reflexivity.
+  - destruct marker; [lia | unfold U64_HALF in Hsmall; lia].
+Qed.
+
+(* a destination of length 0 (or less) reads nothing and changes nothing, in every state *)
+Theorem lzma1_read_zero : forall s buflen, buflen <= 0 -> lzma1_read s buflen = Ok ([], s).
+Proof. exact read_zero. Qed.
+
+(* after the end was reported every further read returns Ok(0) *)
+Theorem lzma1_read_after_end : forall s buflen, l_end_reached s = true -> lzma1_read s buflen = Ok ([], s).
+Proof. exact read_ended. Qed.
+
 Print Assumptions lzma1_roundtrip_raw.
+Print Assumptions lzma1_roundtrip_preset.
+Print Assumptions lzma1_roundtrip_header.
+Print Assumptions lzma1_read_zero.
